@@ -160,7 +160,7 @@ macro_rules! battery {
                         let r3 = format!("{} {} {}", r3, res(date(a).set_day(v), show_d), res(date(a).set_month(v), show_d));
                         // constructors of Time with their error texts (the stated range is part of C15)
                         let r3 = format!("{} {} {} {}", r3, res(Time::from_hms(v, (e & 63) as u32, (a & 63) as u32), show_t), res(Time::from_seconds(v), show_t),
-                            res(Time::from_nanos(if e % 3 == 0 { 86_400_000_000_000 + (d as u64 % 3) } else { (d as u64).wrapping_mul(1_000_003) }), show_t));
+                            res(Time::from_nanos(if e % 3 == 0 { 86_400_000_000_000 + (d as u64 % 3) } else if e % 3 == 1 { (d as u64).wrapping_mul(1_000_003) } else { 4_294_967_296_000_000_000u64.wrapping_mul(1 + (d as u64 % 4)).wrapping_add(d as u64 % 1000) }), show_t));
                         format!("{} || {} || {}", r, r2, r3)
                     }
                     "C11" => {
